@@ -38,6 +38,9 @@ def main():
         os.symlink(os.path.join(agent_root, "out"), os.path.join(wt, "out"))
         demo = meta.get("demo_cmd", "")
         demo = demo.replace(agent_root + "/", "").replace(agent_root, ".")
+        # keep the exit status of the test: drop a trailing clean-up command
+        if ";" in demo and demo.rsplit(";", 1)[1].strip().startswith("rm "):
+            demo = demo.rsplit(";", 1)[0].strip()
         rc, o = sh(demo, wt)
         res["demo_on_clean"] = {"cmd": demo, "exit": rc, "tail": o[-600:]}
         res["ran"].append("demonstration on the unchanged tree: exit %d" % rc)
@@ -48,7 +51,7 @@ def main():
             raise SystemExit
         rc, o = sh("go build ./... ", wt)
         res["builds"] = rc == 0
-        rc, o = sh(demo.split("&&", 1)[1] if demo.strip().startswith("cp ") and "&&" in demo else demo, wt)
+        rc, o = sh(demo, wt)
         res["demo_on_patched"] = {"exit": rc, "tail": o[-900:]}
         res["ran"].append("demonstration on the patched tree: exit %d" % rc)
         # remove the demo test files before the baseline and the checks
